@@ -28,7 +28,8 @@ RULE = ("encoder: every string over {00,01,FF} up to length L (L=9 quick, 13 tho
         "length 0..1100 in 4 left/right contexts, random strings up to the cap; decoder: every input over "
         "{00,01,02,FF} up to length M (8 quick, 11 thorough; exhaustive), adversarial inputs around the 0x3000 cap, "
         "random inputs; header peek: zero-coded datagrams from the template generator. distinct_nontrivial = "
-        "distinct inputs containing at least one zero byte")
+        "distinct inputs containing at least one zero byte"
+        ". Rounds 6-7: the result of an earlier expand call must be unchanged after later calls; compress / expand from four threads at once against their single-threaded results")
 ASSUMPTIONS = [
     "reference semantics: 00 N = N zeros, each extra 00 before the count adds 256, an unterminated run of k zero "
     "bytes at the end is 1+256(k-1) zeros (matches the viewer's decoder)",
